@@ -34,9 +34,12 @@ TRUSTED = [
 ASSUMPTIONS = [
     "a stream is the list of bytes not yet read; stream.read(n) returns fewer bytes only at EOF (io.BytesIO semantics)",
     "Python int is Z; str is its UTF-8 bytes; float is its binary64 pattern; object identity is not modelled",
-    "a frame payload is shorter than 2**64 bytes (premise `Zlength stream < 2^64` of the stream theorems)",
-    "obj_eq of written and returned message is C01's round trip, used as an explicit premise of C10_stream_roundtrip_eq only; "
-    "the unconditional theorems say each load returns Cls().parse(bytes(m))",
+    "a frame payload is shorter than 2**64 bytes (premise `Zlength stream < 2^64` of the stream theorems, `msg_small` per message "
+    "in the round-trip section)",
+    "the framing / truncation theorems are unconditional (each load returns Cls().parse(bytes(m))); the end-to-end theorems "
+    "C10_stream_roundtrip / C10_stream_older_reader / C10_truncate_roundtrip (returned messages == the written ones, older reader, "
+    "whole frames before a cut) hold under the decidable side conditions of C01 / C08: c01_schema_ok, c01_value_ok, masks_ok, "
+    "and no NaN directly inside a container for the == conclusions (K7 of C01)",
 ]
 RULE = ("streams of 0-6 messages drawn from a systematic schema (every scalar kind x {plain, optional, repeated, oneof, map, wrapper}, nested, "
         "empty class) and random schemas, each extended with an OLDER variant of every class (subset of the fields); empties, unknown fields, "
